@@ -176,6 +176,47 @@ class CancelOracle(Monitor):
         pass
 
 
+def _lazy_user_epilogue(w, t) -> None:
+    """(a) once more, for a user who does not fetch the PDUs between two requests: an accepted cancel request in
+    unacknowledged mode ends the transaction at once (the EOF (cancel) stays queued in the idle handler); a second cancel
+    request then names no active transaction and has to be answered with False."""
+    if t.choose(4, "lazy user epilogue") != 3 or w.violations or w.cfg.metadata_only:
+        return
+    from pathlib import Path
+
+    from cfdpsim.world import UNACK
+
+    a = w.a
+    h = a.handlers["src"]
+    if h.states.state.name != "IDLE" or h.states.packets_ready:
+        return
+    # the oracle of the run's own transaction does not follow a second one
+    w.monitors[:] = [m for m in w.monitors if not isinstance(m, (CancelOracle, pops.CancelTrigger))]
+    req = w.put_request_obj()
+    req.trans_mode = UNACK
+    req.dest_file = Path("dst/epilogue.bin")
+    rec = w.call(a, "src", "put", arg=req)
+    if rec.exc is not None or rec.ret is not True:
+        return
+    for _ in range(1 + t.choose(4, "epilogue calls")):
+        w.poll(a, "src")
+    tid = h.transaction_id
+    if tid is None or h.states.state.name != "BUSY":
+        return
+    a.nodrain = True
+    r1 = w.call(a, "src", "cancel", arg=tid)
+    a.nodrain = False
+    if r1.exc is not None or r1.ret is not True or r1.post.state != "IDLE":
+        w.call(a, "src", "cancel", arg=tid)  # (fetches what was left)
+        return
+    w.probe("C12.lazy_user_second_cancel")
+    r2 = w.call(a, "src", "cancel", arg=tid)
+    if r2.exc is not None:
+        w.violate("C12.a_cancel_raises", f"side=src {r2.exc!r} handler idle (transaction ended by the accepted cancel, EOF (cancel) not fetched yet)", "")
+    elif r2.ret is not False:
+        w.violate("C12.a_return_value", f"side=src ret={r2.ret} want=False handler idle, EOF (cancel) not fetched yet", "")
+
+
 def run_one(t):
     holder = {}
 
@@ -187,6 +228,7 @@ def run_one(t):
     ctx = pops.cancel(t, attach)
     w = ctx.w
     try:
+        _lazy_user_epilogue(w, t)
         return from_world(w, ctx.pop, holder["o"].accepted > 0)
     finally:
         w.close()
